@@ -42,6 +42,7 @@ fn mutations(rng: &mut Rng, names: &[&str]) -> Vec<String> {
 
 pub fn generate(s: &mut Session, tier: &str, rng: &mut Rng) {
     bad_user_keys(s, rng);
+    missing_cipher(s);
     // ---- names
     s.begin_case("cipher-names");
     for (n, is22, eih) in README_CIPHERS {
@@ -152,6 +153,32 @@ pub fn generate(s: &mut Session, tier: &str, rng: &mut Rng) {
         }
         s.mark_nontrivial();
     }
+}
+
+/// a shadowsocks entry that names no cipher at all (the field is optional for the deserialiser): the service must not
+/// come up with some cipher of its own choosing — start-up ends with the error, on the tcp and on the udp side alike;
+/// trojan, which has no cipher, serves
+pub fn missing_cipher(s: &mut Session) {
+    s.begin_case("startup-missing-cipher");
+    for mode in ["tcp", "tcp_and_udp"] {
+        let w = s.fresh("w");
+        let r = s.run(&format!("e2e.start {} protocol=shadowsocks cipher=(none) spw=secret cpw=secret users=- mode={} link=0 threads=2", w, mode));
+        if r == "ok" {
+            let alive = s.run(&format!("e2e.alive {}", w));
+            if alive == "alive" {
+                s.oracle_fail("startup-missing-cipher", &format!("a shadowsocks entry without a cipher (mode {}) went into service instead of stopping start-up", mode));
+            }
+            s.run(&format!("e2e.stop {}", w));
+        }
+    }
+    let w = s.fresh("w");
+    if s.run(&format!("e2e.start {} protocol=trojan cipher=(none) spw=secret cpw=secret users=- mode=tcp link=0 threads=2", w)) == "ok" {
+        if s.run(&format!("e2e.alive {}", w)) != "alive" {
+            s.oracle_fail("startup-missing-cipher", "a trojan entry (which has no cipher) did not start without one");
+        }
+        s.run(&format!("e2e.stop {}", w));
+    }
+    s.mark_nontrivial();
 }
 
 /// the real server start-up (`startup`) with a malformed *user* key: the service must not come up (no silent
